@@ -252,6 +252,15 @@ pub fn hold<F>(site: u32, f: F) -> Holder<F> {
     call(site, "opnd", 0i64.canon());
     Holder { f }
 }
+/// variant `mirror`: values of the sibling branches (silent), and the check of their final values
+pub fn sib(j: i64, step: i64) -> i64 {
+    100 * j + step
+}
+pub fn sib_check(j: i64, got: &Option<i64>, want: Option<i64>) {
+    if got != &want {
+        call(9000 + j as u32, "sibling", got.unwrap_or(-1).canon());
+    }
+}
 /// operand shape "ifelse": an `if` expression whose value is the callback
 pub fn yes(site: u32) -> bool {
     call(site, "opnd", 0i64.canon());
